@@ -142,10 +142,14 @@ def _get_resp_headers(sock, success_statuses: tuple = SUCCESS_STATUSES) -> tuple
     status, resp_headers, status_message = read_headers(sock)
     if status not in success_statuses:
         content_len = resp_headers.get("content-length")
-        if content_len:
-            response_body = sock.recv(
-                int(content_len)
-            )  # read the body of the HTTP error message response and include it in the exception
+        try:
+            content_len = int(content_len) if content_len else 0
+        except ValueError:
+            content_len = 0
+        if content_len > 0:
+            # read the body of the HTTP error message response and include it in the exception;
+            # never ask the transport for more than a bounded amount, whatever the peer declared
+            response_body = sock.recv(min(content_len, 16384))
         else:
             response_body = None
         raise WebSocketBadStatusException(
